@@ -9,7 +9,8 @@ EXTENDS Encoding, Pairing
 RECURSIVE FirstX1(_, _)
 FirstX1(x, fuel) == IF QIsSquare(E1!Rhs(x)) \/ fuel = 0 THEN x ELSE FirstX1(QAdd(x, One), fuel - 1)
 \* the identity point up to sign (the sign convention of hash-to-curve is not part of the property)
-IdPoints(h) == LET x == FirstX1(ModN(ModPow2(FromBE(h), 381), QMod), 300)
+TaiX(h) == FirstX1(ModN(ModPow2(FromBE(h), 381), QMod), 300)    \* x of the try-and-increment point
+IdPoints(h) == LET x == TaiX(h)
                    y == QSqrt(E1!Rhs(x))
                    c == E1!ScalarMul(H1, <<x, y>>)
                IN { c, E1!PNeg(c) }
